@@ -80,6 +80,8 @@ func runC14(r *ev.Run) {
 		shortq := 0
 		if sf.Name == "frag(mem)" || sf.Name == "mbapp(mem)" {
 			shortq = pick(r, 2, 4)
+		} else if shortQueueStack(sf.Name) {
+			shortq = pick(r, 1, 2) // any layer over a buffer-recycling transport may be tempted to keep a reference past the callback
 		}
 		for rep := 0; rep < reps+shortq; rep++ {
 			idx++
